@@ -44,8 +44,10 @@ PROPS = {
     "C12": dict(parts=[Z("C12", scen="pool")], quick=12000, thorough=600000, nontrivial=["work_done"], level="exploration"),
     "C13": dict(parts=[Z("C13", scen="pool")], quick=12000, thorough=600000, nontrivial=["work_done"], level="exploration"),
     "C19": dict(parts=[Z("C19", scen="popen")], quick=20000, thorough=1000000, nontrivial=["popen_kill"], level="exploration"),
-    "C14": dict(parts=[Z("C08", "tsan"), Z("C09", "tsan"), Z("C18", "tsan")], quick=9000, thorough=400000,
-                nontrivial=["post_cross"], level="exploration"),
+    "C14": dict(parts=[Z("C08", "tsan", w=3), Z("C09", "tsan", w=2), Z("C18", "tsan", w=2), Z("C12", "tsan", w=3, scen="pool"),
+                       Z("C13", "tsan", w=2, scen="pool"), Z("C10", "tsan", w=2, scen="sig"), Z("C11", "tsan", w=2, scen="wait")],
+                quick=9000, thorough=400000, quick_s=80, nontrivial=[],
+                nontrivial_any=["post_cross", "sim_libthreads", "sim_sigdel", "sim_reaps"], level="exploration"),
     "C15": dict(parts=[Z("C15", mode="enum")], quick=260, thorough=12000, nontrivial=["block"], level="fault_enumeration"),
     "C18": dict(parts=[Z("C18", w=4), Z("C13", scen="pool"), Z("C10", scen="sig"), Z("C11", scen="wait"), Z("C19", scen="popen")], quick=24000, thorough=1200000, nontrivial=["cycles"], level="exploration"),
 }
@@ -137,7 +139,11 @@ class Agg:
         h = R.get("hash", "")
         self.hashes.add(h)
         self.sched_hashes.add(R.get("shash", ""))
-        if all(r["probes"].get(p, 0) > 0 for p in self.cfg["nontrivial"]):
+        for k in ("trunc", "shortio", "eintr", "tfd_armed", "tfd_cleared", "tfd_nudged", "sigdel", "forks", "reaps", "pidreuse", "libthreads"):
+            if k in R:
+                r["probes"]["sim_" + k] = int(R[k])
+        if all(r["probes"].get(p, 0) > 0 for p in self.cfg["nontrivial"]) and \
+           (not self.cfg.get("nontrivial_any") or any(r["probes"].get(p, 0) > 0 for p in self.cfg["nontrivial_any"])):
             self.nontrivial_hashes.add(h)
         for src, dst in ((r["probes"], self.probes), (r["cbs"], self.cbs), (r["ops"], self.ops), (r["faults"], self.faults)):
             for k, v in src.items():
@@ -148,9 +154,6 @@ class Agg:
         self.steps += int(R.get("steps", 0))
         self.switches += int(R.get("switches", 0))
         self.secs += r["secs"]
-        for k in ("trunc", "shortio", "eintr", "tfd_armed", "tfd_cleared", "tfd_nudged", "sigdel", "forks", "reaps", "pidreuse", "libthreads"):
-            if k in R:
-                self.probes["sim_" + k] = self.probes.get("sim_" + k, 0) + int(R[k])
         if r["viol"]:
             rel = [v for v in r["viol"] if relevant(self.prop, v[0])]
             if rel:
@@ -423,7 +426,7 @@ def evidence(prop, tier_name, base, cfg, agg, wall, nviol, exes):
              "under the simulator; distinct = distinct 64-bit hashes of the complete event log (scheduler decisions, waits, clock reads, "
              "API calls, callbacks, faults); non-trivial = the run fired all of these probes at least once: %s"
              % ("; ".join("%s/%s/%s%s" % (p["scen"], p["profile"], p["flav"], "/enum" if p["mode"] == "enum" else "") for p in cfg["parts"]),
-                ", ".join(cfg["nontrivial"])),
+                ", ".join(cfg["nontrivial"]) + (" and at least one of: " + ", ".join(cfg["nontrivial_any"]) if cfg.get("nontrivial_any") else "")),
         samples=samples,
         distinct_event_logs=len(agg.hashes),
         distinct_interleavings=len(agg.sched_hashes),
